@@ -107,6 +107,12 @@ def pitchKey (c : Chord) (n : Note) : Int :=
   | .ok (some p) => p
   | _ => 0
 
+/-- the pitch of a table note, required to exist (a `None` key makes `sorted` raise TypeError) -/
+def reqPitch (c : Chord) (n : Note) : Res Int := do
+  match ← basicPitch c n with
+  | some p => pure p
+  | none => .error .type
+
 /-! ### chord.py : extensions -/
 
 /-- `get_extension_properties` on the structured form: the three lists sorted -/
@@ -186,10 +192,7 @@ def Chord.chordNotesCalc (c : Chord) (fig : Fig) (repl add rem : List String) : 
   let st3 ← calcRemovals rem st2
   -- `sorted(notes, key=self.to_pitch)`: the keys are evaluated first (an exception or a
   -- `None` key aborts), then the stable sort only compares them
-  let _ ← st3.notes.mapM (fun n => do
-    match ← basicPitch c n with
-    | some p => pure p
-    | none => .error .type)      -- sorting `None` keys raises TypeError
+  let _ ← st3.notes.mapM (reqPitch c)
   pure (sortByKey (pitchKey c) st3.notes)
 
 /-- root-position figure used by `chord_notes` -/
@@ -208,11 +211,7 @@ def Chord.extensionNotes (c : Chord) : Res (List Note) :=
   let (fig, r, a, m) := c.ext.props
   c.chordNotesCalc fig r a m
 
-def pitchesOf (c : Chord) (ns : List Note) : Res (List Int) :=
-  ns.mapM (fun n => do
-    match ← basicPitch c n with
-    | some p => pure p
-    | none => .error .type)
+def pitchesOf (c : Chord) (ns : List Note) : Res (List Int) := ns.mapM (reqPitch c)
 
 /-- `Chord.chord_pitches` -/
 def Chord.chordPitches (c : Chord) : Res (List Int) := do pitchesOf c (← c.chordNotes)
